@@ -14,8 +14,11 @@ ASSUMPTIONS = C02.ASSUMPTIONS + ['tables with AREA_HANDLE_MAX areas / REGISTER_H
 EXHAUSTIVE = {'quick': False, 'thorough': False}
 NO_SHRINK = True
 TECHNIQUE = 'Coq proof (init succeeds iff the description is well formed; first-error precedence; uninitialised afterwards; post-state) + correspondence over a grid of area and register layouts'
-LEVEL_TEXT = ('Properties_C04.v: after a failed init every operation reports UNINITIALISED and changes nothing; the error code/index is the first violated rule in the documented order; after success the '
-              'table is initialised, defaults of default-loading areas read back, other words of memory areas are zero and first/last/count describe the run of registers in each area.')
+LEVEL_TEXT = ('Theorems in Properties_C04.v about Model/RegTable.v: initialisation succeeds iff there is an area, areas and entries are each ordered and disjoint, and the defaults load - which happens '
+              'only if every register lies wholly inside one area (the other failure being a default its own constraint refuses); otherwise the FIRST violated rule is reported in the order no-areas < area order/overlap < '
+              'entry order/overlap < entry placement/default with the index of the first offending element (the checks are proved equal to a declarative first-break search); a failed initialisation leaves the table '
+              'uninitialised, the flag is set exactly by success, and every operation on an uninitialised table reports UNINITIALISED and changes nothing.  Correspondence only (partial): after success the defaults read back, '
+              'other memory words are zero, first/last/count describe the run of registers in each area.')
 LEVEL_NOTE = 'Trusted: Coq kernel; hand model of register_init (correspondence-tested on the layout grid). No axioms.'
 
 def gen(rng, tier):
